@@ -50,7 +50,7 @@ func magicFor(i int) uint32 {
 
 func batches() []batch {
 	var bs []batch
-	rounds := vf.N(1, 14)
+	rounds := vf.N(1, 12)
 	for r := 0; r < rounds; r++ {
 		for i, sp := range specs {
 			for k, n := 0, partsOf(sp.cmd); k < n; k++ {
@@ -58,7 +58,7 @@ func batches() []batch {
 			}
 		}
 	}
-	for r := 0; r < vf.N(2, 12); r++ {
+	for r := 0; r < vf.N(2, 10); r++ {
 		bs = append(bs, batch{Kind: "stream", Round: r, Parts: 1, Magic: magicFor(r)})
 	}
 	for r := 0; r < vf.N(1, 8); r++ {
